@@ -288,7 +288,7 @@ def main():
 
     def oracle_of(r):
         """'1' / '0' / 'na' — the property predicate on the implementation's observation"""
-        if "need" in cfg:
+        if "need" in cfg and "sub" in r:
             if cfg.get("need_intent", True) and r.get("intent") != "1":
                 return "na"
             sub = subdict(r.get("sub"))
@@ -296,7 +296,7 @@ def main():
         return r.get(col, "na")
 
     def agree_of(r):
-        if "agr_need" in cfg:
+        if "agr_need" in cfg and "agr" in r:
             a = subdict(r.get("agr"))
             return "1" if all(a.get(k) == "1" for k in cfg["agr_need"]) else "0"
         return r.get(acol, r.get("agree", "0"))
